@@ -158,7 +158,9 @@ pub fn replay(fctx: &fuzz::Ctx, seed: u64, reps: usize, rep: &mut Report, trace:
             // ... and, for every row, a fixed schedule before the random cases: each server behaviour once without any settings
             // (the only cases in which the module path is comparable), then silence and a partial answer with the caller's
             // timeout settings (retries 1), then a valid and a partial answer with default extra settings
-            const FIXED: [(&str, u8); 10] = [("silent", 0), ("valid", 0), ("partial", 0), ("foreign", 0), ("malformed", 0), ("dedicated", 0),
+            // (n even: port omitted, n odd: port given - every behaviour meets both)
+            const FIXED: [(&str, u8); 16] = [("silent", 0), ("valid", 0), ("partial", 0), ("foreign", 0), ("malformed", 0), ("dedicated", 0),
+                                            ("valid", 0), ("silent", 0), ("foreign", 0), ("partial", 0), ("dedicated", 0), ("malformed", 0),
                                             ("silent", 1), ("partial", 1), ("valid", 2), ("partial", 2)];
             let fixed: Option<(&str, u8)> = FIXED.get(n).copied();
             let behaviour = fixed.map_or(behaviour, |f| f.0);
